@@ -64,6 +64,7 @@ type gen struct {
 	noise   int    // 0 none, 1 light, 2 heavy (random redelivery / crafted replay)
 	dup     bool
 	pl      plan
+	stash   []*lib.QuorumCertificate // certificates only the adversary holds (formed from votes, never sent)
 }
 
 func (g *gen) class(c string) { g.classes[c] = true }
@@ -204,7 +205,7 @@ func perm(t *rapid.T, n int, label string) []int {
 	return p
 }
 
-var families = []string{"F1", "F2", "F3", "F3", "F4", "F5", "F6"}
+var families = []string{"F1", "F2", "F3", "F3", "F3", "F4", "F5", "F6"}
 
 // Run draws a committee and plays a scenario on a fresh simulator. The caller owns res.S (Close it).
 func Run(t *rapid.T, opt Options) *Result {
@@ -283,14 +284,27 @@ func RunOn(t *rapid.T, opt Options, cfg bs.Config, mode string, g1, g2 []int) *R
 	if len(bz) == 0 && (fam == "F2" || fam == "F3" || fam == "F6") {
 		fam = "F4"
 	}
-	if mode == "boundary" && rapid.IntRange(0, 2).Draw(t, "boundaryF6") > 0 {
+	if mode == "boundary" && fam != "F3" && rapid.IntRange(0, 2).Draw(t, "boundaryF6") > 0 {
 		fam = "F6"
 	}
 	var pl plan
 	switch fam {
 	case "F3":
-		pl.k1, pl.k2, pl.k3 = rapid.IntRange(0, 3).Draw(t, "k1"), rapid.IntRange(0, 2).Draw(t, "k2"), rapid.IntRange(0, 1).Draw(t, "k3")
-		pl.bump = rapid.Bool().Draw(t, "bumpBetween")
+		// the relation between the view of the withheld certificate (root, r1) and the view of the later lock (rootB, r2)
+		// is drawn first: older root & higher round / older root & lower-or-equal round / same root (then r1 < r2)
+		switch rapid.SampledFrom([]string{"older-root-higher-round", "older-root-lower-round", "same-root"}).Draw(t, "certVsLock") {
+		case "older-root-higher-round":
+			pl.bump = true
+			pl.k2 = rapid.IntRange(0, 1).Draw(t, "k2")
+			pl.k1 = pl.k2 + rapid.IntRange(1, 2).Draw(t, "k1")
+		case "older-root-lower-round":
+			pl.bump = true
+			pl.k1 = rapid.IntRange(0, 2).Draw(t, "k1")
+			pl.k2 = pl.k1 + rapid.IntRange(0, 1).Draw(t, "k2")
+		default:
+			pl.k1, pl.k2 = rapid.IntRange(0, 2).Draw(t, "k1"), rapid.IntRange(0, 1).Draw(t, "k2")
+		}
+		pl.k3 = rapid.IntRange(0, 1).Draw(t, "k3")
 		pl.r1 = uint64(pl.k1)
 		if pl.bump {
 			pl.rootB, pl.r2 = cfg.RootHeight+1, uint64(pl.k2)
@@ -828,7 +842,10 @@ func (g *gen) lockRound(allLock bool) bool {
 	if !allLock {
 		lockers = g.drawSubset(at, "lockers", false)
 	}
-	committers := g.drawSubset(at, "committers", true)
+	var committers []int // the leader always has its own copy of COMMIT
+	if rapid.IntRange(0, 3).Draw(g.t, "moreCommitters") == 0 {
+		committers = g.drawSubset(at, "committers", true)
+	}
 	g.script("lock(L=%d,precommit->%v,commit->%v)", l, lockers, committers)
 	g.class("seg:partial-commit")
 	g.runSeg(segOpt{want: l, p: 1, pm: 0, byzSilent: true, onlyTo: map[string][]int{"PC": lockers, "CM": committers}})
@@ -877,7 +894,11 @@ func (g *gen) byzRound(d int, variant string) *bs.ByzLeader {
 		case "stale":
 			// any +2/3 PROPOSE_VOTE certificate ever seen whose block differs from what some correct replica here is locked on
 			var cands []*lib.QuorumCertificate
-			for _, c := range s.Certs() {
+			all := append(append([]*lib.QuorumCertificate{}, g.stash...), s.Certs()...)
+			if len(g.stash) > 0 && rapid.IntRange(0, 9).Draw(g.t, "fromStash") < 7 {
+				all = g.stash
+			}
+			for _, c := range all {
 				if c.Header.Phase != bs.ProposeVote || s.CertPower(c) < s.VS.MinimumMaj23 || s.BlockOf(c.BlockHash) == nil {
 					continue
 				}
@@ -889,7 +910,7 @@ func (g *gen) byzRound(d int, variant string) *bs.ByzLeader {
 				}
 			}
 			if len(cands) == 0 {
-				for _, c := range s.Certs() {
+				for _, c := range all {
 					if c.Header.Phase == bs.ProposeVote && s.CertPower(c) >= s.VS.MinimumMaj23 && s.BlockOf(c.BlockHash) != nil {
 						cands = append(cands, c)
 					}
@@ -921,6 +942,11 @@ func (g *gen) byzRound(d int, variant string) *bs.ByzLeader {
 	g.script("byz(D=%d,%s)", d, desc)
 	g.class("byzlead:" + variant)
 	g.runSeg(segOpt{want: d, p: 1, pm: 0, lead: bl})
+	for _, c := range bl.PCCerts {
+		if c != nil {
+			g.stash = append(g.stash, c)
+		}
+	}
 	return bl
 }
 
@@ -995,8 +1021,8 @@ func (g *gen) famWithheld() {
 	if g.done() {
 		return
 	}
-	g.lockRound(rapid.IntRange(0, 3).Draw(g.t, "allLock") > 0)
-	if rapid.IntRange(0, 5).Draw(g.t, "bumpAfterLock") == 0 {
+	g.lockRound(rapid.IntRange(0, 5).Draw(g.t, "allLock") > 0)
+	if rapid.IntRange(0, 7).Draw(g.t, "bumpAfterLock") == 0 {
 		g.bump()
 	}
 	g.maybeDup()
@@ -1008,7 +1034,7 @@ func (g *gen) famWithheld() {
 		g.class("byz-not-electable")
 		return
 	}
-	g.byzRound(d, rapid.SampledFrom([]string{"stale", "stale", "stale", "fresh", "partialhqc"}).Draw(g.t, "unlockWith"))
+	g.byzRound(d, rapid.SampledFrom([]string{"stale", "stale", "stale", "stale", "fresh", "partialhqc"}).Draw(g.t, "unlockWith"))
 }
 
 // F4: partial commit delivery, the rest must re-commit the same block in later rounds under leader changes.
